@@ -36,7 +36,9 @@ def make_image(bdir, r, cd, store):
 def field_values(r, length, old):
     mx = (1 << (8 * length)) - 1
     cands = [0, 1, mx, mx - 1, old + 1, max(0, old - 1), old ^ (1 << r.randrange(8 * length)), 1 << r.randrange(8 * length),
-             r.randrange(mx + 1), old | (1 << (8 * length - 1)), old * 2 & mx, 0x7FFFFFFF & mx, (old + 8192) & mx, (old + 0x10000) & mx]
+             r.randrange(mx + 1), old | (1 << (8 * length - 1)), old * 2 & mx, 0x7FFFFFFF & mx, (old + 8192) & mx, (old + 0x10000) & mx,
+             # just below the maximum: "offset + length" sums wrap around in the field's own width
+             mx - r.choice([1, 2, 7, 16, 100, 255, 4095, 8191]), mx - r.choice([1, 2, 7, 16, 100, 255, 4095, 8191]), (mx + 1 - old) & mx, mx - old]
     v = r.choice(cands)
     return v & mx
 
@@ -56,8 +58,13 @@ def mutate(r, data, fields):
             b[p] ^= 1 << r.randrange(8)
             desc.append("flip @%d" % p)
         return bytes(b), desc
+    byclass = {}
+    for f in fields:
+        byclass.setdefault(re.sub(r"\d+", "N", f[0]), []).append(f)
+    classes = sorted(byclass)
     for _ in range(r.choice([1, 1, 2, 3])):
-        name, off, ln = r.choice(fields)
+        # half of the time every *kind* of field is equally likely (a big directory does not drown the seven fragment offsets)
+        name, off, ln = r.choice(byclass[r.choice(classes)]) if r.random() < 0.5 else r.choice(fields)
         if ln in (1, 2, 4, 8):
             old = int.from_bytes(b[off:off + ln], "little")
             new = field_values(r, ln, old)
@@ -69,6 +76,31 @@ def mutate(r, data, fields):
             b[p] = r.choice([0, ord("/"), ord("."), 0xFF, old ^ 0x20])
             desc.append("%s byte @%d: %#x -> %#x" % (name, p, old, b[p]))
     return bytes(b), desc
+
+
+NV = 8
+
+
+def sweep_value(k, ln, old, r):
+    mx = (1 << (8 * ln)) - 1
+    return [0, mx, mx - 1, mx - r.choice([2, 7, 16, 100]), (old + 1) & mx, old | (1 << (8 * ln - 1)), (mx + 1 - old) & mx, (old * 2 + 1) & mx][k] & mx
+
+
+def mutate_sweep(r, data, fields, i):
+    """systematic part: every KIND of numeric field (names with the indices removed) x NV boundary values, one random instance each"""
+    byclass = {}
+    for f in fields:
+        if f[2] in (1, 2, 4, 8):
+            byclass.setdefault(re.sub(r"\d+", "N", f[0]), []).append(f)
+    classes = sorted(byclass)
+    if i >= len(classes) * NV:
+        return None, None
+    name, off, ln = r.choice(byclass[classes[i // NV]])
+    b = bytearray(data)
+    old = int.from_bytes(b[off:off + ln], "little")
+    new = sweep_value(i % NV, ln, old, r)
+    b[off:off + ln] = new.to_bytes(ln, "little")
+    return bytes(b), ["%s @%d: %#x -> %#x" % (name, off, old, new)]
 
 
 def readers(paths, r):
@@ -102,13 +134,14 @@ def verdict_clause(o):
 
 
 def work(a):
-    bdir, seed, nmut = a
-    res = {"runs": 0, "viol": [], "err": None, "case": {"seed": seed}, "accepted": 0, "rejected": 0, "fields": 0, "transient": 0,
+    bdir, seed, nmut = a[:3]
+    sweep = len(a) > 3 and a[3] == "sweep"
+    res = {"runs": 0, "viol": [], "err": None, "case": {"seed": seed, "sweep": sweep}, "accepted": 0, "rejected": 0, "fields": 0, "transient": 0,
            "by_reader": {}, "delivered": 0}
     r = rng(seed, "c05")
     try:
         with Scratch("c05") as cd:
-            store = r.random() < 0.7
+            store = sweep or r.random() < 0.7
             ents, comp = make_image(bdir, r, cd, store)
             data = open(os.path.join(cd, "clean.sqfs"), "rb").read()
             img = sqfsdec.decode(data)
@@ -123,8 +156,13 @@ def work(a):
                      "any": [os.fsdecode(p) for p in img.tree if p]}
             for i in range(nmut):
                 mr = rng(seed, "mut", i)
-                bad, desc = mutate(mr, data, fields)
-                transient = mr.random() < 0.15 and len(bad) == len(data)
+                if sweep:
+                    bad, desc = mutate_sweep(mr, data, fields, i)
+                    if bad is None:
+                        break
+                else:
+                    bad, desc = mutate(mr, data, fields)
+                transient = not sweep and mr.random() < 0.15 and len(bad) == len(data)
                 plan = "seed 1\nsched rr\n"
                 if transient:
                     # deliver the clean bytes first, the damaged value only on a later read of the same byte
@@ -138,7 +176,10 @@ def work(a):
                 else:
                     with open(os.path.join(cd, "m.sqfs"), "wb") as f:
                         f.write(bad)
-                for tool, argv, rname in readers(paths, mr):
+                rl = readers(paths, mr)
+                if sweep:
+                    rl = [x for x in rl if x[2] in ("unpack", "sqfs2tar", "describe")]      # between them they read every structure
+                for tool, argv, rname in rl:
                     shutil.rmtree(os.path.join(cd, "unp"), ignore_errors=True)
                     os.makedirs(os.path.join(cd, "unp"))
                     o = run_sim(os.path.join(bdir, "asan", "sim-" + tool), argv, plan=plan, cwd=cd, timeout=60, cpu=10,
@@ -164,7 +205,7 @@ def work(a):
 
 def replay(spec, bdir=None):
     bdir = bdir or vfbuild.build()
-    w = work((bdir, spec["seed"], spec["i"] + 1))
+    w = work((bdir, spec["seed"], spec["i"] + 1) + (("sweep",) if spec.get("image", {}).get("sweep") else ()))
     found = [v for v in w["viol"] if v["i"] == spec["i"] and v["reader"] == spec["reader"] and v["clause"] == spec["clause"]]
     print("replay: %s %s -> %s" % (spec["reader"], spec["clause"], "REPRODUCED\n" + found[0]["stderr"][-600:] if found else "not reproduced"))
     return 1 if found else 0
@@ -177,6 +218,7 @@ def main():
     bdir = vfbuild.build()
     nimg, nmut = (48, 22) if t == "quick" else (1200, 40)
     items = [(bdir, derive(seed, "c05", i) >> 1, nmut) for i in range(nimg)]
+    items += [(bdir, derive(seed, "c05sweep", i) >> 1, 100000, "sweep") for i in range(4 if t == "quick" else 200)]
     results = list(pmap_unordered(work, items))
     for r in results:
         if r["err"]:
@@ -186,7 +228,7 @@ def main():
         for v in r["viol"]:
             seen.setdefault("%s:%s" % (v["reader"], v["clause"]), (r, v))
     for key, (r, v) in sorted(seen.items()):
-        w = work((bdir, r["case"]["seed"], v["i"] + 1))
+        w = work((bdir, r["case"]["seed"], v["i"] + 1) + (("sweep",) if r["case"].get("sweep") else ()))
         if not [x for x in w["viol"] if x["i"] == v["i"] and x["reader"] == v["reader"] and x["clause"] == v["clause"]]:
             rep.harness_error("violation %s did not reproduce" % key)
             continue
@@ -205,7 +247,8 @@ def main():
         "samples": [r["case"] for r in results[:4]],
         "images": len(results),
         "field_map_entries_total": sum(r["fields"] for r in results),
-        "faults_fired": {"damaged_images": len(results) * nmut, "transient_variants": sum(r["transient"] for r in results),
+        "faults_fired": {"damaged_images": sum(r["runs"] for r in results if not r["case"].get("sweep")) // 8 + sum(r["runs"] for r in results if r["case"].get("sweep")) // 3,
+                         "systematic_field_kind_x_boundary_value_images": sum(r["runs"] for r in results if r["case"].get("sweep")) // 3, "transient_variants": sum(r["transient"] for r in results),
                          "transient_bytes_delivered_corrupted": sum(r["delivered"] for r in results)},
         "runs_by_reader": by,
         "readers_exit0": sum(r["accepted"] for r in results),
